@@ -36,6 +36,12 @@ THEOREMS = [
     "Mashu.Lazy.interleaving_independent",
     "Mashu.Lazy.thread_finishes",
     "Mashu.Lazy.stub_in_dialect_method_diverges",
+    "Mashu.DiscrF.acts_inv",
+    "Mashu.DiscrF.ok_interleave",
+    "Mashu.DiscrF.programFixed_ok",
+    "Mashu.DiscrF.concurrent_rescans_keep_inv",
+    "Mashu.DiscrF.register_first_breaks_inv",
+    "Mashu.DiscrF.rescan_order_pinned",
 ]
 RULE = (
     "case = mixin (dict/orjson/msgpack/toml/yaml/json) x mode (eager, lazy_compilation, postponed forward reference, lazy+postponed) x ADD_DIALECT_SUPPORT x "
@@ -557,11 +563,19 @@ def run(ctx):
         a, k = index[cid]
         run_case(ctx, c, cid, info, ms[a : a + k] if ms else None)
     run_generic_orders(ctx, 12 if quick else 24)
+    from . import c14_schedules
+
+    c14_schedules.run_schedules(ctx, 8 if quick else 30)
     thread_stress(ctx, 30 if quick else 400, 8, info)
     ctx.assumptions.append("threads: attribute reads/writes and exec are atomic under the GIL; races inside CPython, functools.lru_cache or the builder's shared __dict__ are outside the model (PARTIAL for schedules)")
 
 
 def replay(ctx, body):
+    if isinstance(body.get("case"), dict) and "schedule" in body["case"]:
+        from . import c14_schedules
+
+        c14_schedules.run_schedules(ctx, 30)
+        return ctx.finish()
     if isinstance(body.get("case"), dict) and "generic_order" in body["case"]:
         run_generic_orders(ctx, 24)
         return ctx.finish()
